@@ -358,16 +358,30 @@ TWO_FILES = ("utils/naming.py", "types/attr.py")
 _TWO_COUNTER = [0]
 
 
-def _two_classes(eager, attr):
-    from typing import Dict, List
+def _two_classes(eager, attr, mutual=False):
+    from typing import Dict, List, Optional
 
     from spec_classes import spec_class
 
-    def mk(name, extra):
-        ns = {"__annotations__": {attr: List[int], extra: Dict[str, int], "n": int}, attr: [], extra: {}, "n": 0, "__module__": "vf.generated"}
-        return spec_class(bootstrap=eager)(type(name, (), ns))
+    holder = {}
 
-    return mk("A", attr + "_of_a"), mk("B", attr + "_of_b")
+    def mk(name, extra, peer):
+        ns = {"__annotations__": {attr: List[int], extra: Dict[str, int], "n": int}, attr: [], extra: {}, "n": 0, "__module__": "vf.generated"}
+        if mutual:
+            # the two classes refer to each other in their annotations (resolved through the documented ANNOTATION_TYPES hook)
+            ns["__annotations__"]["peer"] = f"Optional[{peer}]"
+            ns["__annotations__"]["peers"] = f"List[{peer}]"
+            ns["peer"] = None
+            ns["peers"] = []
+            ns["ANNOTATION_TYPES"] = staticmethod(lambda: dict(holder, Optional=Optional, List=List))
+        cls = spec_class(bootstrap=eager and not mutual)(type(name, (), ns))
+        holder[name] = cls
+        return cls
+
+    A, B = mk("A", attr + "_of_a", "B"), mk("B", attr + "_of_b", "A")
+    if mutual and eager:
+        A(), B()  # (forward references cannot be bootstrapped at decoration time: the sequential first uses are the reference)
+    return A, B
 
 
 def _two_describe(classes, attr):
@@ -384,7 +398,8 @@ def run_twoclass(ctx, case, record=False):
     # reference must not warm anything up for the lazy classes)
     _TWO_COUNTER[0] += 1
     ref_attr, attr = f"payload_{_TWO_COUNTER[0]}_e", f"payload_{_TWO_COUNTER[0]}_x"
-    want = _two_describe(_two_classes(True, ref_attr), ref_attr)
+    mutual = bool(case.get("mutual"))
+    want = _two_describe(_two_classes(True, ref_attr, mutual), ref_attr)
     if not PATCH.patched:
         PATCH.install()
     sched = Scheduler(case["schedule"], files=TWO_FILES, timeout=30.0)
@@ -392,7 +407,7 @@ def run_twoclass(ctx, case, record=False):
     PATCH.current = sched
     restore = PATCH.swap_live_locks(sched)
     try:
-        A, B = _two_classes(False, attr)
+        A, B = _two_classes(False, attr, mutual)
         try:
             threads = sched.run([lambda: A().n, lambda: B().n])
         except HarnessStall as e:
@@ -466,14 +481,15 @@ def run_unit(ctx, unit):
     elif kind == "twoclass":
         from vf.runner import Ctx
 
-        probe = run_twoclass(Ctx("C19", "count", 0), {"kind": "twoclass", "schedule": []}, record=True)
-        total = probe.step if probe else 0
-        for s in range(1, total + 1):
-            if s % unit[2] != unit[1]:
-                continue
-            run_twoclass(ctx, {"kind": "twoclass", "schedule": [[s, 1]]})
-            if ctx.failures:
-                return
+        for mutual in (False, True):
+            probe = run_twoclass(Ctx("C19", "count", 0), {"kind": "twoclass", "schedule": [], "mutual": mutual}, record=True)
+            total = probe.step if probe else 0
+            for s in range(1, total + 1):
+                if s % unit[2] != unit[1]:
+                    continue
+                run_twoclass(ctx, {"kind": "twoclass", "schedule": [[s, 1]], "mutual": mutual})
+                if ctx.failures:
+                    return
         ctx.count("twoclass_shards_completed")
     elif kind == "single":
         wd, triggers = SHAPES[unit[1]]
